@@ -43,9 +43,13 @@ _NEIGHBORS: dict = {}
 
 
 def neighbor_for(session: dict):
-    key = (session['ext_ours'], session['addpath'], session['ibgp'])
+    extnh = bool(session.get('extnh'))
+    key = (session['ext_ours'], session['addpath'], session['ibgp'], extnh)
     if key not in _NEIGHBORS:
         fams = [FAMILY_TEXT[f] for f in model.FAMILIES]
+        if extnh:
+            # exabgp offers RFC 8950 for a family only when its IPv6 twin is configured too
+            fams += ['ipv6 nlri-mpls', 'ipv6 mpls-vpn']
         text = exa.neighbor_text(
             peer_ip=f'127.0.9.{1 + len(_NEIGHBORS)}',
             local_as=model.LOCAL_AS,
@@ -55,8 +59,10 @@ def neighbor_for(session: dict):
                 'asn4': 'enable',
                 'add-path': 'send/receive' if session['addpath'] else 'disable',
                 'extended-message': 'enable' if session['ext_ours'] else 'disable',
+                'nexthop': 'enable' if extnh else 'disable',
             },
-            addpath_families=fams if session['addpath'] else None,
+            addpath_families=[FAMILY_TEXT[f] for f in model.FAMILIES] if session['addpath'] else None,
+            nexthop=['ipv4 nlri-mpls ipv6', 'ipv4 mpls-vpn ipv6'] if extnh else None,
         )
         try:
             _NEIGHBORS[key] = exa.neighbor_from_text(text)
@@ -75,6 +81,8 @@ def peer_open(session: dict) -> bytes:
         caps.append(build.cap_addpath([(a, s, 3) for a, s in fams]))
     if session['ext_peer']:
         caps.append(build.cap_ext_msg())
+    if session.get('extnh'):
+        caps.append(build.cap_ext_nh([(a, s, 2) for a, s in fams if (a, s) in ((1, 4), (1, 128))]))
     return build.open_with_caps(peer_as, 90, 0x0A000002, caps)
 
 
@@ -412,6 +420,8 @@ def check(case: dict) -> dict:
         classes.append('families-mixed')
     if len({r['nexthop'] for r in exp_ann.values() if (r['afi'], r['safi']) != (1, 1)}) >= 2:
         classes.append('mp-several-nexthops')
+    if any(len({':' in r['nexthop'] for r in exp_ann.values() if (r['afi'], r['safi']) == f}) == 2 for f in ((1, 4), (1, 128))):
+        classes.append('rfc8950:next-hops-of-two-lengths-in-one-family')
     if any(not v for v in fit.values()):
         classes.append('unfit-routes-requested')
     if any((r['afi'], r['safi']) not in neg_fams for r, _ in ann + wd):
